@@ -29,7 +29,7 @@ type input struct {
 	// cons, fwd
 	Mode    string      `json:"mode,omitempty"` // manual | timer
 	Slots   int         `json:"slots,omitempty"`
-	Batches []batchSpec `json:"batches,omitempty"`
+	Batches []batchSpec `json:"batches"`
 	Flushes []int       `json:"flushes,omitempty"` // pause before each concurrent flush, microseconds
 	EmitUs  []int       `json:"emit_us,omitempty"` // cons: pause of the sink reader before it takes emission f
 	// fwd
